@@ -2,13 +2,21 @@
 # Run every registered quick check against every kept seeded change, the way the brief describes:
 # apply the patch to /repo's working tree, run the check of the property it breaks, undo straight afterwards.
 # Writes seeded/RESULTS.md.  Refuses to start if /repo has uncommitted changes.
+# SCRATCH=1: the same matrix on a scratch git worktree of /repo HEAD (under /tmp, removed at the end) through
+# SPOWTD_REPO, so that /repo stays clean and other checks can run meanwhile; ONLY="C05 C19": those properties only.
 here=$(cd "$(dirname "$0")/.." && pwd)
 if [ -n "$(git -C /repo status --porcelain)" ]; then echo "/repo is not clean"; exit 2; fi
+tree=/repo
+if [ -n "$SCRATCH" ]; then
+  tree=$(mktemp -d /tmp/seedmatrix-XXXXXX); rmdir "$tree"
+  git -C /repo worktree add -q --detach "$tree" HEAD || exit 3
+  export SPOWTD_REPO="$tree" VERIF_SCRATCH_OUT=/dev/shm/seedmatrix-out
+fi
 out="$here/seeded/RESULTS.md"
 {
 echo "# Seeded changes against the registered quick checks"
 echo
-echo "Each patch was applied to /repo (git apply), the quick check of the property it breaks was run once per seed in VERIF_SEED = ${SEEDS:-1} (exit status per seed: 1 = VIOLATION reported), and /repo was restored (git checkout -- .). Evidence files are restored from git afterwards, so committed evidence always comes from the unchanged tree."
+echo "Each patch was applied to $([ -n "$SCRATCH" ] && echo 'a scratch git worktree of /repo HEAD' || echo /repo) (git apply), the quick check of the property it breaks was run once per seed in VERIF_SEED = ${SEEDS:-1} (exit status per seed: 1 = VIOLATION reported), and /repo was restored (git checkout -- .). Evidence files are restored from git afterwards, so committed evidence always comes from the unchanged tree."
 echo
 echo "| seeded change | exit per seed | first violation line |"
 echo "|---|---|---|"
@@ -16,7 +24,8 @@ echo "|---|---|---|"
 status=0
 for meta in "$here"/seeded/C*/*/meta.json; do
   dir=$(dirname "$meta"); name=$(basename "$dir"); pid=$(basename "$(dirname "$dir")")
-  git -C /repo apply "$dir/patch.diff" || { echo "| $pid/$name | patch does not apply | |" >> "$out"; continue; }
+  if [ -n "$ONLY" ]; then case " $ONLY " in *" $pid "*) ;; *) continue;; esac; fi
+  git -C "$tree" apply "$dir/patch.diff" || { echo "| $pid/$name | patch does not apply | |" >> "$out"; continue; }
   log=$(mktemp); rcs=""; first=""
   for seed in ${SEEDS:-1}; do
     VERIF_SEED=$seed "$here/check" "$pid" --tier quick --no-evidence > "$log" 2>&1; rc=$?
@@ -24,12 +33,13 @@ for meta in "$here"/seeded/C*/*/meta.json; do
     [ -n "$first" ] || first=$(grep -m1 '^violation' "$log" | cut -c1-110)
     [ "$rc" = 1 ] || status=1
   done
-  git -C /repo checkout -- .
+  git -C "$tree" checkout -- .
   echo "| $pid/$name | $rcs| $first |" >> "$out"
   rm -f "$log"
 done
 # remove counter-examples produced against the changed trees (they are not regressions of the real tree)
 git -C "$here" status --porcelain replays | awk '$1=="??"{print $2}' | while read f; do rm -rf "$here/$f"; done
+if [ -n "$SCRATCH" ]; then git -C /repo worktree remove --force "$tree"; git -C /repo worktree prune; rm -rf /dev/shm/seedmatrix-out; fi
 echo >> "$out"; echo "All caught: $([ $status = 0 ] && echo yes || echo NO)" >> "$out"
 cat "$out"
 exit $status
